@@ -280,6 +280,11 @@ func c15Create(c *ctx) {
 				if ht.Op == "call:len" && paramIs(fn, 3)(ht.Args[0]) {
 					lok = true
 				}
+				// len(ids) with ids the list the checker hands back: the same list when every successful
+				// return of the checker returns its own argument
+				if ht.Op == "call:len" && ht.Args[0].V == ids && paramIs(fn, 3)(core.TermOf(ci.Call.Args[1])) && returnsArgOnSuccess(core.Callee(ci), 1) {
+					lok = true
+				}
 			}
 		}
 		if !lok {
@@ -454,4 +459,31 @@ func c15Verify(c *ctx) {
 	}
 	c.r.Check(addOK, rule, fkey(rule, fn, "add-error-rejects"), c.fpos(fn), "a failing point addition returns false", "a failing point addition can still lead to acceptance")
 	c.r.Floor(rule, 4)
+}
+
+// returnsArgOnSuccess: every return of f whose error result is the nil constant returns parameter k as
+// its first result (and there is such a return).
+func returnsArgOnSuccess(f *ssa.Function, k int) bool {
+	if f == nil || f.Blocks == nil || k >= len(f.Params) {
+		return false
+	}
+	n := 0
+	for _, b := range f.Blocks {
+		ret, ok := b.Instrs[len(b.Instrs)-1].(*ssa.Return)
+		if !ok || len(ret.Results) != 2 {
+			continue
+		}
+		if !core.IsNilConst(core.Strip(ret.Results[1])) {
+			// an error return must not hand out a list
+			if !core.IsNilConst(core.Strip(ret.Results[0])) {
+				return false
+			}
+			continue
+		}
+		if core.Strip(ret.Results[0]) != ssa.Value(f.Params[k]) {
+			return false
+		}
+		n++
+	}
+	return n > 0
 }
